@@ -32,7 +32,8 @@ FLAG_INV = {
     "left_running": "NothingRunningAtReturn", "no_stop_all": "NothingRunningAtReturn", "counters": "CountersMatch",
     "error_not_failed": "FailureContained", "resume_failed_run": "FailureContained",
     "failure_limit": "FailureLimit", "failure_not_named": "FailureLimit", "failure_not_notified": "FailureNotifiedOnce",
-    "delete_live": "DeleteOnlyWhenDead", "copy_missing": "CopySourceExists", "copy_missing_stopped_while_queued": "CopySourceExists", "resume_ckpt_missing": "ResumeSourceExists",
+    "delete_live": "DeleteOnlyWhenDead", "copy_missing": "CopySourceExists", "copy_missing_stopped_while_queued": "CopySourceExists", "resume_ckpt_missing": "ResumeSourceExists", "checkpoint_not_found_by_worker": "ResumeSourceExists",
+    "checkpoint_unexpected": "ResumeSourceExists",
     "stop_without_decision": "StopPauseDecided", "pause_without_decision": "StopPauseDecided",
 }
 PROP_FLAGS = {p: sorted(f for f, i in FLAG_INV.items() if i in invs) for p, invs in ALL_INVARIANTS.items()}
